@@ -46,10 +46,13 @@ theorem C15_mailbox_after_dropped {cap r s m ch s' nx} (h : Mb.Reach cap r s) (h
 /-- no deadlock: while any Post/Send, the Close or a callback is in progress there is an occupied program-counter
     kind whose goroutine can take its next atom — whatever message it carries (the counters do not record it);
     callbacks terminate = the gate is open.  In particular a sender blocked in the send is released by the
-    consumer or, after Close, by the recovered panic. -/
+    consumer or, after Close, by the recovered panic. 
+    This includes a Close() issued from inside a callback on the handler/actor itself (the loop goroutine is then
+    the closer: kinds c1 → r0) and callbacks that wait for what the closer does right after Close() returned;
+    `Mb.live`: such a waiting callback (ids 400–499) is only expected to finish once a Close has been started. -/
 theorem C15_mailbox_nodeadlock {cap s} (h : Mb.Reach cap true s) (hg : s.gate = true)
     (hb : 0 < s.cnt .p0 ∨ 0 < s.cnt .p1 ∨ 0 < s.cnt .c0 ∨ 0 < s.cnt .c1 ∨ 0 < s.cnt .r1) :
-    ∃ k, 0 < s.cnt k ∧ ∀ pc, Mb.kind pc = k → ∃ s' nx, Mb.gstep s pc false = some (s', nx) :=
+    ∃ k, 0 < s.cnt k ∧ ∀ pc, Mb.kind pc = k → Mb.live s pc → ∃ s' nx, Mb.gstep s pc false = some (s', nx) :=
   Mb.progressK (Mb.inv_reach h) (Mb.recovers_const h) hg hb
 
 /-- non-vacuity: a state with a sender past the check while Close is half done is reachable -/
